@@ -177,3 +177,68 @@ Definition imports_once (bi : list name) (ns : list (list name)) (p : program) :
              | BImp _ _ => Nat.eqb (count_name (fst xb) (map fst bs)) 1 && negb (mem (fst xb) (bi ++ concat ns))
              | BOther => true
              end) bs.
+
+(* ---------- stage 3: stage 2 + comprehensions ----------
+   A comprehension may stand wherever an expression may (also in a lambda body, a default, a decorator ...), nested to
+   any depth.  Inside a comprehension there is no lambda (c3_expr), and the iterable of its first generator contains no
+   nested scope at all (s1_expr): pyflyby visits that iterable inside the comprehension's scope although Python evaluates
+   it in the enclosing one - harmless for the reads made directly there (the scope is still empty), wrong for deferred
+   ones (F10-firstiter). *)
+Fixpoint c3_expr (e : expr) {struct e} : bool :=
+  match e with
+  | ELoad _ _ => true
+  | EOp es => (fix go (l : list expr) : bool := match l with [] => true | x :: r => c3_expr x && go r end) es
+  | EAttr e _ => c3_expr e
+  | ELambda _ _ _ => false
+  | EComp gens elts =>
+      (fix go (l : list gen) (first : bool) : bool :=
+         match l with [] => true | g :: r => c3_gen first g && go r false end) gens true &&
+      (fix go (l : list expr) : bool := match l with [] => true | x :: r => c3_expr x && go r end) elts
+  end
+with c3_gen (first : bool) (g : gen) {struct g} : bool :=
+  match g with
+  | Gen iter tgt ifs =>
+      (if first then s1_expr iter else c3_expr iter) && s1_target tgt &&
+      (fix go (l : list expr) : bool := match l with [] => true | x :: r => c3_expr x && go r end) ifs
+  end.
+
+Fixpoint s3_expr (e : expr) : bool :=
+  match e with
+  | ELoad _ _ => true
+  | EOp es => (fix go (l : list expr) : bool := match l with [] => true | x :: r => s3_expr x && go r end) es
+  | EAttr e _ => s3_expr e
+  | ELambda ps ds body =>
+      forallb not_star ps &&
+      (fix go (l : list expr) : bool := match l with [] => true | x :: r => s3_expr x && go r end) ds &&
+      s3_expr body
+  | EComp gens elts => c3_expr (EComp gens elts)
+  end.
+Definition s3_oexpr (o : option expr) : bool := match o with Some e => s3_expr e | None => true end.
+Definition s3_param (q : param) : bool := not_star (fst q) && s3_oexpr (snd q).
+Definition s3_oparam (o : option param) : bool := match o with Some q => s3_param q | None => true end.
+Definition s3_params (p : params) : bool :=
+  forallb s3_param (p_posonly p) && forallb s3_param (p_args p) && s3_oparam (p_vararg p) &&
+  forallb s3_param (p_kwonly p) && s3_oparam (p_kwarg p) &&
+  forallb s3_expr (p_defaults p) && forallb s3_oexpr (p_kw_defaults p).
+Definition s3_with_item (it : expr * option target) : bool :=
+  s3_expr (fst it) && match snd it with Some t => s1_target t | None => true end.
+
+Fixpoint s3_stmt (x : stmt) : bool :=
+  let blk := fix blk (l : list stmt) : bool := match l with [] => true | y :: r => s3_stmt y && blk r end in
+  match x with
+  | SExpr _ e => s3_expr e
+  | SAssign _ ts v => s3_expr v && forallb s1_target ts
+  | SAugAssign _ n attrs v => is_nil attrs && not_star n && s3_expr v
+  | SImport _ items => forallb s1_import_item items
+  | SImportFrom _ _ items => forallb s1_from_item items
+  | SDef _ nm decos ps ret body =>
+      not_star nm && forallb (fun d : nat * expr => s3_expr (snd d)) decos && s3_params ps && s3_oexpr ret && blk body
+  | SFor _ t it b o => s1_target t && s3_expr it && blk b && blk o
+  | SWhile _ t b o => s3_expr t && blk b && is_nil o
+  | SIf _ t b o => s3_expr t && blk b && is_nil o
+  | SWith _ items b => forallb s3_with_item items && blk b
+  | STry _ b hs o f => blk b && is_nil hs && blk o && blk f
+  | SPass _ => true
+  | SAllAssign _ _ | SClass _ _ _ _ _ _ | SDoc _ _ _ => false
+  end.
+Definition s3_block (l : list stmt) : bool := forallb s3_stmt l.
